@@ -136,4 +136,14 @@ TEXT = {
         "level_text": "documents rendered by the harness are read by the library, projected back to the harness model, written and re-read",
         "level_note": "the harness's XML renderer escapes the five predefined entities; large documents cross the 4096-event buffer",
     },
+    "C24": {"engine": "zb",
+        "technique": "exhaustive short histories + random long ones against a sequential object-tree model, three observation views",
+        "level_text": "after each operation of every short history (and of random long ones) the set of (path, interface) pairs seen by lookup, by real method calls from a scripted peer and by walking Introspect from the root is compared with the model's set",
+        "level_note": "interfaces are macro-generated in the harness; introspection XML is read with zbus_xml",
+    },
+    "C30": {"engine": "zb",
+        "technique": "quiescence-based deadlock / lost-call detection under a seeded scheduler",
+        "level_text": "handlers that re-enter the object server are called by a scripted peer; a call still unanswered when no actor can move is a deadlock or lost-call witness with the schedule trace",
+        "level_note": "two listed known findings (lazy dispatch start race; registration under ObjectManager with a re-entrant getter)",
+    },
 }
